@@ -861,7 +861,7 @@ where
                 "upsert.update",
                 Some(&kh.key),
                 Self::verif_info_id(&entry),
-                old_weight as u64,
+                _old_weight as u64,
                 new_weight as u64,
             );
             // The entry has been already admitted, so treat this as an update.
@@ -884,7 +884,7 @@ where
                 "upsert.fit",
                 Some(&kh.key),
                 Self::verif_info_id(&entry),
-                old_weight as u64,
+                _old_weight as u64,
                 new_weight as u64,
             );
             self.handle_admit(kh, &entry, new_weight, deqs, counters);
@@ -899,7 +899,7 @@ where
                     "upsert.oversize",
                     Some(&kh.key),
                     Self::verif_info_id(&entry),
-                    old_weight as u64,
+                    _old_weight as u64,
                     new_weight as u64,
                 );
                 self.cache.remove(&Arc::clone(&kh.key));
@@ -922,7 +922,7 @@ where
                     "upsert.admit",
                     Some(&kh.key),
                     Self::verif_info_id(&entry),
-                    old_weight as u64,
+                    _old_weight as u64,
                     new_weight as u64,
                 );
                 // Try to remove the victims from the cache (hash map).
@@ -958,7 +958,7 @@ where
                     "upsert.reject",
                     Some(&kh.key),
                     Self::verif_info_id(&entry),
-                    old_weight as u64,
+                    _old_weight as u64,
                     new_weight as u64,
                 );
                 skipped_nodes = s;
